@@ -93,6 +93,21 @@ func (f *fctx) invoke(ins *ssa.Call) {
 		f.setVal(ins, s)
 		return
 	}
+	// third-party interface methods with an assumed (extern) contract: opaque total calls
+	key := ":invoke." + typeBaseName(com.Value.Type()) + "." + com.Method.Name()
+	if con := f.vc.cs.Funcs[key]; con != nil {
+		f.oblige("S", fmt.Sprintf("S/nil-invoke@%s", f.insID(ins)), T(SBool, "(not (= %s any.nil))", f.val(com.Value).S), ins.Pos(), "method call on nil interface")
+		f.sc.Trusted["assumed contract (third-party, total, no effect on repository state): "+strings.TrimPrefix(key, ":invoke.")] = true
+		sig := com.Signature()
+		var res []Term
+		for i := 0; i < sig.Results().Len(); i++ {
+			r := f.declare(fmt.Sprintf("%s_r%d", com.Method.Name(), i), f.vc.sortOf(sig.Results().At(i).Type()))
+			f.assumeTypeInvariant(r, sig.Results().At(i).Type(), false)
+			res = append(res, r)
+		}
+		f.setResult(ins, res)
+		return
+	}
 	f.fail("interface method call %s", com.Method.Name())
 }
 
@@ -133,6 +148,9 @@ func (f *fctx) builtin(ins *ssa.Call, b *ssa.Builtin) {
 				el = fmt.Sprintf("(store %s (+ (seq.len %s) %d) (select (seq.el %s) %d))", el, s.S, k, t.S, k)
 			}
 			f.defVal(ins, Term{S: fmt.Sprintf("(%s (+ (seq.len %s) %d) %s)", mkseqOf(s.Sort), s.S, n, el), Sort: s.Sort})
+			if bn, ok := f.constLen[s.S]; ok {
+				f.constLen[f.vals[ins].S] = bn + n
+			}
 			return
 		}
 		r := f.declare(ins.Name(), s.Sort)
@@ -274,6 +292,24 @@ func (f *fctx) callFunction(ins *ssa.Call, callee *ssa.Function, args []Term, po
 		f.setVal(ins, r)
 		f.sc.Trusted["strings.Join(l,\"/\"): concatenation of the field lists"] = true
 		return
+	case "sort.Float64s":
+		// in-place sort: the slice value is re-bound to a sorted rearrangement of itself
+		// (same length, ascending, same set of elements); sound because slices built in this
+		// function are not aliased (frame rule)
+		x := ins.Common().Args[0]
+		old := f.val(x)
+		r := f.declare(ins.Name()+"_sorted", old.Sort)
+		f.assume(T(SBool, "(= (seq.len %s) (seq.len %s))", r.S, old.S))
+		f.assume(T(SBool, "(forall ((q!i Int) (q!j Int)) (! (=> (and (<= 0 q!i) (<= q!i q!j) (< q!j (seq.len %s))) (<= (select (seq.el %s) q!i) (select (seq.el %s) q!j))) :pattern ((select (seq.el %s) q!i) (select (seq.el %s) q!j))))", r.S, r.S, r.S, r.S, r.S))
+		f.assume(T(SBool, "(forall ((q!i Int)) (! (=> (and (<= 0 q!i) (< q!i (seq.len %s))) (exists ((q!j Int)) (and (<= 0 q!j) (< q!j (seq.len %s)) (= (select (seq.el %s) q!i) (select (seq.el %s) q!j))))) :pattern ((select (seq.el %s) q!i))))", r.S, old.S, r.S, old.S, r.S))
+		f.assume(T(SBool, "(forall ((q!j Int)) (! (=> (and (<= 0 q!j) (< q!j (seq.len %s))) (exists ((q!i Int)) (and (<= 0 q!i) (< q!i (seq.len %s)) (= (select (seq.el %s) q!i) (select (seq.el %s) q!j))))) :pattern ((select (seq.el %s) q!j))))", old.S, r.S, r.S, old.S, old.S))
+		r.Ty = x.Type()
+		f.vals[x] = r
+		if n, ok := f.constLen[old.S]; ok {
+			f.constLen[r.S] = n
+		}
+		f.sc.Trusted["sort.Float64s: ascending rearrangement with the same elements"] = true
+		return
 	case "fmt.Errorf":
 		f.vals[ins] = BoolLit(true)
 		return
@@ -368,7 +404,14 @@ func (f *fctx) applyContract(callee *ssa.Function, con *Contract, args []Term, p
 		var r Term
 		if con.Pure {
 			// a pure function: its result is a function of the arguments (uninterpreted symbol constrained by the ensures)
-			r = f.define(fmt.Sprintf("%s_r%d", callee.Name(), i), f.vc.pureApp(callee, i, args))
+			app := f.vc.pureApp(callee, i, args)
+			if f.sc.CalledPure == nil {
+				f.sc.CalledPure = map[string]bool{}
+			}
+			if j := strings.Index(app.S, " "); j > 1 {
+				f.sc.CalledPure[app.S[1:j]] = true
+			}
+			r = f.define(fmt.Sprintf("%s_r%d", callee.Name(), i), app)
 		} else {
 			r = f.declare(fmt.Sprintf("%s_r%d", callee.Name(), i), s)
 		}
